@@ -7,7 +7,9 @@ import (
 	"bufio"
 	"fmt"
 	"io"
+	"os"
 	"os/exec"
+	"sync/atomic"
 	"strconv"
 	"strings"
 	"time"
@@ -33,6 +35,7 @@ func (r SatResult) String() string {
 
 type SolverStats struct {
 	Queries, Sat, Unsat, Unknown, Errors int
+	AltQueries, AltDecided               int
 	Time                                 time.Duration
 	MaxQuery                             time.Duration
 }
@@ -43,6 +46,8 @@ func (a *SolverStats) add(b SolverStats) {
 	a.Unsat += b.Unsat
 	a.Unknown += b.Unknown
 	a.Errors += b.Errors
+	a.AltQueries += b.AltQueries
+	a.AltDecided += b.AltDecided
 	a.Time += b.Time
 	if b.MaxQuery > a.MaxQuery {
 		a.MaxQuery = b.MaxQuery
@@ -64,7 +69,13 @@ type Solver struct {
 	record    bool
 	buf       strings.Builder
 	nDefined  int
+	transcript strings.Builder
+	AltKind   string
+	alt       *Solver
 }
+
+var dumpSlow = os.Getenv("VERIF_DUMP_SLOW")
+var dumpN int32
 
 func solverArgs(kind string, timeoutMs int) (string, []string) {
 	switch kind {
@@ -74,6 +85,10 @@ func solverArgs(kind string, timeoutMs int) (string, []string) {
 		return "z3-new", []string{"-in", "-t:" + strconv.Itoa(timeoutMs)}
 	case "cvc5":
 		return "cvc5", []string{"--incremental", "--lang=smt2", "--produce-models", "--tlimit-per=" + strconv.Itoa(timeoutMs)}
+	case "cvc5-int":
+		// bit-vectors solved as integers (keeps the mod-2^k semantics): decides
+		// linear offset arithmetic in milliseconds where bit-blasting stalls
+		return "cvc5", []string{"--incremental", "--lang=smt2", "--produce-models", "--solve-bv-as-int=sum", "--tlimit-per=" + strconv.Itoa(timeoutMs)}
 	}
 	panic("unknown solver " + kind)
 }
@@ -108,7 +123,7 @@ func (s *Solver) start() error {
 	s.stack = nil
 	s.nDefined = 0
 	s.send("(set-option :global-declarations true)\n")
-	if s.Kind != "cvc5" {
+	if !strings.HasPrefix(s.Kind, "cvc5") {
 		s.send("(set-option :produce-models true)\n")
 	}
 	s.send("(set-logic ALL)\n")
@@ -116,6 +131,11 @@ func (s *Solver) start() error {
 }
 
 func (s *Solver) Close() {
+	if s.alt != nil {
+		s.alt.Close()
+		s.Stats.Time += s.alt.Stats.Time
+		s.alt = nil
+	}
 	if s.cmd != nil {
 		s.in.Close()
 		s.cmd.Process.Kill()
@@ -134,6 +154,9 @@ func (s *Solver) restart() {
 func (s *Solver) send(txt string) {
 	if s.record {
 		s.buf.WriteString(txt)
+	}
+	if dumpSlow != "" {
+		s.transcript.WriteString(txt)
 	}
 	if _, err := io.WriteString(s.in, txt); err != nil {
 		panic(engineError{"solver write: " + err.Error()})
@@ -196,6 +219,33 @@ func (s *Solver) readUntilMarker() []string {
 
 // Check decides pc ∧ extra. With wantModel, values of vars are returned for sat.
 func (s *Solver) Check(pc []*Term, extra []*Term, vars []*Term) (SatResult, map[string]uint64) {
+	res, model := s.check1(pc, extra, vars)
+	if res == Unknown && s.AltKind != "" {
+		// second opinion from another back end on unknown / timeout
+		if s.alt == nil {
+			a, err := NewSolver(s.AltKind, s.ts, s.timeoutMs)
+			if err != nil {
+				return res, model
+			}
+			s.alt = a
+		}
+		r2, m2 := s.alt.check1(pc, extra, vars)
+		s.Stats.AltQueries++
+		if r2 != Unknown {
+			s.Stats.Unknown--
+			s.Stats.AltDecided++
+			if r2 == Sat {
+				s.Stats.Sat++
+			} else {
+				s.Stats.Unsat++
+			}
+			return r2, m2
+		}
+	}
+	return res, model
+}
+
+func (s *Solver) check1(pc []*Term, extra []*Term, vars []*Term) (SatResult, map[string]uint64) {
 	s.SetPC(pc)
 	for _, e := range extra {
 		s.define(e)
@@ -214,6 +264,12 @@ func (s *Solver) Check(pc []*Term, extra []*Term, vars []*Term) (SatResult, map[
 	s.LastQuery = s.buf.String()
 	s.Stats.Queries++
 	s.Stats.Time += el
+	if dumpSlow != "" && el > 5*time.Second {
+		n := atomic.AddInt32(&dumpN, 1)
+		if n <= 10 {
+			os.WriteFile(fmt.Sprintf("%s/slow-%d.smt2", dumpSlow, n), []byte(fmt.Sprintf("; %v %v\n", el, lines)+s.transcript.String()), 0o644)
+		}
+	}
 	if el > s.Stats.MaxQuery {
 		s.Stats.MaxQuery = el
 	}
